@@ -2,6 +2,9 @@
 P = "dulwich/pack.py"
 F19 = "dulwich/protocol.py"
 BOUNDED = {
+    "C16": [
+        {"name": "c16_backends", "script": "c16_backends.py", "args": []},
+    ],
     "C11": [
         {"name": "c11_roundtrip", "script": "c11_roundtrip.py", "args": []},
     ],
